@@ -13,7 +13,7 @@ NULL = {'null_model_und_sign', 'null_model_dir_sign'}
 # double 1/wei_freq and the exact quotient round differently) and the smallest value the claim covers (1e-18: the period
 # 10^18 still fits an int64; below ~1.08e-19 np.round(1/wei_freq).astype(int) overflows - outside the claimed domain).
 # The model gets the *double* wei_freq as an exact fraction and reproduces fl(1/wei_freq) and np.round itself.
-FREQ_GRID = sorted([0, .1, .2, .25, .3, .4, .5, 2 / 3, .7, 1, 2 / 9, 2 / 49, 1e-18])
+FREQ_GRID = sorted([0, .1, .2, .25, .3, .4, .5, 2 / 3, .7, 1, 2 / 9, 2 / 49, 1e-18])   # 1e-19, 1e-30, 5e-324: family tiny-wei-freq
 
 
 def freq_str(x):
@@ -226,6 +226,8 @@ def gen_cases(rs, tier):
             c.update({k: v for k, v in kw.items() if k in ('itr', 'freq')})
             if rs.rand() < .4:      # representation axis: same logical matrix, other memory order / dtype
                 c['rep'] = {'order': ORDERS[int(rs.randint(len(ORDERS)))], 'dtype': DTYPES[int(rs.choice([0, 0, 1, 2]))]}
+                if c.get('family') == 'float-weights':
+                    c['rep']['dtype'] = 'float64'       # int64 / float32 would be another logical matrix
             cases.append(c)
             return c
 
@@ -271,6 +273,24 @@ def gen_cases(rs, tier):
             if und:
                 W1[1, 0] = W1[0, 1]
             add(W1, edge='full-one-negative')
+        # wei_freq at the bottom of (0, 1]: 1/wei_freq beyond int64 (and beyond float range) - a single sorting round
+        if r in NULL:
+            for fq in (1e-19, 1e-30, 5e-324):
+                for n in (4, 6):
+                    for _ in range(20):
+                        W = signed_graph(rs, n, .8, .5, und)
+                        if (W > 0).any() and (W < 0).any():
+                            break
+                    add(W, itr=int(rs.choice([0, 1, 5])), freq=fq, family='tiny-wei-freq')
+        # real-valued weights (6+ decimals): judged by the predicates only, the weight multisets compared exactly as doubles
+        for n in (4, 5, 7, 9, 12, 20):
+            for _ in range(2):
+                W = signed_graph(rs, n, float(rs.choice([.5, .9])), float(rs.choice([.3, .5])), und)
+                W = W * rs.uniform(.001, 3.0, size=W.shape).round(9)
+                if und:
+                    W = np.triu(W, 1); W = W + W.T
+                if (W > 0).any() and (W < 0).any():
+                    add(W, family='float-weights', replay=False)
         # three nodes: no four distinct nodes exist, so nothing can be rewired; every 3-node ternary matrix with a + and a - cell
         fam3 = list(ternary_family(3, und))
         if not und and not big:
@@ -431,8 +451,8 @@ def main():
                        'history: the shuffled cases run in batches of 25, each batch sequentially in a fresh process, plus explicit sequences of sibling routines on '
                        'equal-size inputs; a failure is reported with the calls that preceded it in its process (replayed as history + case); '
                        'object-reuse probes (common.reuse_probe) on the same array object: re-weighted in place, shared with a sibling routine, returned array edited',
-                       'wei_freq is 0 or a double >= 1e-18 (below ~1.08e-19 np.round(1/wei_freq).astype(int) overflows: outside the claim); the model receives the double as an exact '
-                       'fraction and reproduces fl(1/wei_freq) and np.round (half to even) itself',
+                       'wei_freq ranges over 0 and (0, 1] down to 5e-324; the model receives the double as an exact fraction and reproduces fl(1/wei_freq) and np.round (half to even) itself',
+                       'a family of real-valued weights (9 decimals) is judged by the predicates only (the model is over integers): weight multisets are compared exactly as doubles',
                        'n < 4 (nothing can be rewired: the routines return their input, 6e1395a) and input asymmetric within np.allclose tolerance (rejected, e8bc00c) are generated and '
                        'compared with the model like every other case',
                        'randmio_*_signed are called on empty-diagonal input (property quantifier); the null models clear the diagonal themselves']
@@ -487,7 +507,7 @@ def main():
             continue
         rep = c.get('rep') or {}
         ck.count('rep:order=%s' % rep.get('order', 'C')); ck.count('rep:dtype=%s' % rep.get('dtype', 'float64'))
-        cond = {'routine': rt}
+        cond = {'routine': rt, 'tiny_wei_freq': rt in NULL and 0 < c.get('freq', 0) < 1e-18}
         if c.get('malformed'):
             ck.count('malformed:' + c['malformed'])
             if rt == 'null_model_und_sign' and not (r['status'] == 'exc' and exc_kind(r['exc']) == 'BCTParamError'):
@@ -504,7 +524,9 @@ def main():
         if c.get('size'):
             ck.count('size-axis:n=%d' % len(c['W'])); ck.count('size-axis:%s' % ('model-replay' if c.get('replay', True) else 'predicates-only'))
         if not c.get('replay', True):
-            continue
+            ck.count('predicates-only:%s' % (c.get('family') or 'size')); continue
+        if cond['tiny_wei_freq'] and any(p_ in ('pos-weight-multiset', 'neg-weight-multiset') for p_, _ in r['fails']):
+            continue            # open finding C06-wei-period-overflow: nothing dealt; the model (exact period) deals one round
         lines.append(lean_line(c, r)); idx.append(n_)
     # a routine that hangs or raises on (almost) every input must not pass silently
     for rt in ROUTINES:
